@@ -17,8 +17,10 @@ NEW_PAIR = "matching::word_match::WordMatch::new_pair"
 
 
 class Gate:
-    def __init__(self, kind, body, bi, op, const_e, x, pol_note):
+    def __init__(self, kind, body, bi, op, const_e, x, pol_note, xbody=None, cmp_e=None):
         self.kind = kind
+        self.xbody = xbody or body      # the body the compared value is computed in
+        self.cmp_e = cmp_e
         self.body = body
         self.bi = bi
         self.op = op              # accept iff  x <op> C
@@ -74,24 +76,24 @@ def classify(ctx, x):
     return None
 
 
-def _cmp_leaves(ctx, e, pol, out, depth=0):
+def _cmp_leaves(ctx, e, pol, out, depth=0, owner=None):
     """comparisons inside a boolean expression with the polarity under which they make it true"""
     if not isinstance(e, tuple) or depth > 4:
         return
     if e[0] == "binop" and e[1] in U.CMP_OPS:
-        out.append((e, pol))
+        out.append((e, pol, owner))
     elif e[0] == "unop" and e[1] == "Not":
-        _cmp_leaves(ctx, e[2], not pol, out, depth + 1)
+        _cmp_leaves(ctx, e[2], not pol, out, depth + 1, owner)
     elif e[0] == "phi":
         for a in e[2]:
-            _cmp_leaves(ctx, a, pol, out, depth + 1)
+            _cmp_leaves(ctx, a, pol, out, depth + 1, owner)
     elif e[0] == "call":
         b = ctx.facts.bodies.get(e[1])
         if b is None:
             cands = [x for x in ctx.facts.bodies.values() if x.cn == e[1]]
             b = cands[0] if len(cands) == 1 else None
         if b is not None and b.kind in ("fn", "method") and ctx.facts.body(b.id).local_ty(0) == "bool":
-            _cmp_leaves(ctx, U.ret_expr(ctx, b), pol, out, depth + 1)
+            _cmp_leaves(ctx, U.ret_expr(ctx, b), pol, out, depth + 1, b)
 
 
 def find_gates(ctx):
@@ -136,8 +138,8 @@ def find_gates(ctx):
             accept_when = r_true
             e = sy.operand(t["discr"])
             leaves = []
-            _cmp_leaves(ctx, e, True, leaves)
-            for (cmp_e, pol) in leaves:
+            _cmp_leaves(ctx, e, True, leaves, owner=b)
+            for (cmp_e, pol, owner) in leaves:
                 _, op, a, c = cmp_e
                 if U.is_const(a) and not U.is_const(c):
                     a, c, op = c, a, U.FLIP[op]
@@ -150,7 +152,8 @@ def find_gates(ctx):
                 if kind is None:
                     continue
                 gates.append(Gate(kind, b, bi, op, c, a,
-                                  "switch at bb%d, accept on %s branch" % (bi, "true" if accept_when else "false")))
+                                  "switch at bb%d, accept on %s branch" % (bi, "true" if accept_when else "false"),
+                                  xbody=owner, cmp_e=cmp_e))
     return np_id, gates
 
 
